@@ -109,14 +109,17 @@ theorem AllE_gate {cfg : Cfg} {inst : Json} {name : String} {k : Gen} (hk : AllE
 
 theorem AllE_kwRef {env : Env} {rec : Rec} {ref inst : Json} (h : ∀ t, AllE Q (rec inst t)) :
     AllE Q (kwRef env rec ref inst) := by
-  intro b st e he
-  unfold kwRef at he
-  split at he
-  · split at he
+  refine kwRef_cases (P := AllE Q) (fun hg hh b st e he => ?_) (fun r b st e he => ?_)
+    (fun _ _ _ he => by simp [stopG] at he) (fun _ _ _ he => by simp [stopG] at he) ref
+  · unfold ifTopEmpty at he
+    split at he
+    · exact hg b st e he
+    · exact hh b st e he
+  · rw [kwRef_str] at he
+    split at he
     · exact AllE_withScope (h _) _ _ e he
     · simp at he
     · simp at he
-  · simp at he
 
 theorem AllE_mono {Q' : Err → Prop} {g : Gen} (hg : AllE Q' g) (h : ∀ e, Q' e → Q e) : AllE Q g :=
   fun b st e he => h e (hg b st e he)
